@@ -38,7 +38,6 @@ EXCEPTIONS = [
     (r"(Full|Optimal)MerkleTree<H> as .*ZerokitMerkleTree>::override_range$", r"ZerokitMerkleTree>::(delete|set_range)$",
      "the batch was validated (fit and every removal index below the capacity) before the first mutation: the guards of delete/set_range are implied (C08 R08-1)"),
     (r"(Full|Optimal)MerkleTree<H> as .*ZerokitMerkleTree>::delete$", r"ZerokitMerkleTree>::set$", "delete writes only when index < next_index <= capacity, where set cannot fail"),
-    (r"FullMerkleTree<H> as .*ZerokitMerkleTree>::set$", r"ZerokitMerkleTree>::set_range$", "nothing is mutated before set_range; the mark is updated after its success"),
     (r"OptimalMerkleTree<H> as .*ZerokitMerkleTree>::(set|set_range)$", r"update_hashes$", "update_hashes has no reachable Err (it returns Ok after the root is stored)"),
 ]
 
@@ -198,6 +197,15 @@ def atomicity(ctx, fb, it, inst, observed=None):
             idx = any(a[0] == "b" and a[1][0] == "call" and a[1][1].endswith("Iterator>::any") and v is False for a, v in cm)
             if not (fit and st and idx):
                 exc = []
+        if exc and cname and re.search(r"update_hashes$", cname):
+            # this exception claims the callee cannot fail: decide it on the callee
+            ci = fb.lookup(cname.split("@")[0])
+            if ci is None:
+                exc = []
+            else:
+                e2 = Engine(fb, inline=lambda i: False)
+                if any(q.kind == "return" and known_ok(e2.value_of(q.store, q.ret)) is not True for q in e2.run(ci)):
+                    exc = []
         if exc:
             ctx.notes.append("%s: Err from %s after %s: %s" % (inst, cname.split("::")[-1], muts[0][1], exc[0]))
             continue
